@@ -14,17 +14,17 @@ import (
 )
 
 type guardRow struct {
-	Func  string
-	Class string // Z35 Q31 NONNEG NONNEGF LON NIL ELEMNIL ARITY4 ARITY5 INT OPT HORD
-	Param int    // parameter index (receiver counts as 0 for methods)
-	Elem  bool   // subject is an element of the list parameter
-	Acc   string // subject is getter Acc of the (element of the) parameter
-	Acc2  string // HORD on elements: second getter
-	Param2 int
-	NonEmpty int // 1 + index of a list parameter assumed non-empty
+	Func       string
+	Class      string // Z35 Q31 NONNEG NONNEGF LON NIL ELEMNIL ARITY4 ARITY5 INT OPT HORD
+	Param      int    // parameter index (receiver counts as 0 for methods)
+	Elem       bool   // subject is an element of the list parameter
+	Acc        string // subject is getter Acc of the (element of the) parameter
+	Acc2       string // HORD on elements: second getter
+	Param2     int
+	NonEmpty   int    // 1 + index of a list parameter assumed non-empty
 	NonEmptyFn string // result list of this function is non-empty on success
-	Props string // properties that include this row
-	Doc   string // sentence of the documentation / property the row transcribes
+	Props      string // properties that include this row
+	Doc        string // sentence of the documentation / property the row transcribes
 }
 
 var guardTable = []guardRow{
